@@ -114,7 +114,8 @@ structure PathPair where
   p2 : Bytes
   e2 : Bytes
 
-/-- pattern `/a%2fb`: `/a%2fb` matches, `/A%2fb` does not -/
+/-- pattern `/a%2fb`: `/a%2fb` matched and `/A%2fb` did not before the repair (now a regression
+    case in corpus/C06, no longer a witness line) -/
 def wCasePct : PathPair := ⟨"case", [[47, 97, 37, 50, 102, 98]], [47, 97, 47, 98], [47, 97, 37, 50, 102, 98], [47, 65, 47, 98], [47, 65, 37, 50, 102, 98]⟩
 /-- pattern `/a//b`: `/a//b` matches, `/a/b` does not -/
 def wDupSlash : PathPair := ⟨"slash", [[47, 97, 47, 47, 98]], [47, 97, 47, 47, 98], [47, 97, 47, 47, 98], [47, 97, 47, 98], [47, 97, 47, 98]⟩
@@ -128,6 +129,6 @@ def PathPair.line (w : PathPair) : String :=
   " ".intercalate ["C06", "pathpair", w.kind, encodeList w.pats, Hex.encode w.p1, Hex.encode w.e1, Hex.encode w.p2, Hex.encode w.e2]
 
 /-- counter-example lines replayed on the implementation on every run (see Witness.lean) -/
-def witnessLines : List String := [wCasePct.line, wDupSlash.line, wPctEnc.line]
+def witnessLines : List String := [wDupSlash.line, wPctEnc.line]
 
 end CaddyModel.C06
